@@ -1,2 +1,6 @@
 import Ufw.Props.C06
-#print axioms Ufw.Props.C06.seq_step
+#print axioms Ufw.Props.C06.process_write
+#print axioms Ufw.Props.C06.process_read
+#print axioms Ufw.Props.C06.process_read_overflow
+#print axioms Ufw.Props.C06.process_wordsize
+#print axioms Ufw.Props.C06.process_ignores
